@@ -82,6 +82,18 @@ BUILT["C07"] = ("E2", "exploration", "deterministic simulation: numbered NotifyH
 BUILT["C08"] = ("E2", "exploration", "deterministic simulation: every transport dial future completes only when the simulator says so, in a drawn order with drawn outcomes; in-flight counter checked after every scheduler step",
   "N in 1..12 addresses x factor 1..8 (config / override) x smart mode x completion orders: in-flight <= k at every step, one transport dial per address, success iff an attempted address succeeded, exact error accounting in DialError::Transport / concurrent_dial_errors",
   E2_NOTE + "; no hook needed (the property suggested one): the public Swarm path exercises ConcurrentDial/SmartDial unchanged", "5/C08")
+BUILT["C09"] = ("E2", "exploration", "deterministic simulation with virtual clock: smart-dial start times observed on a recording transport whose dials all hang; reference group classifier",
+  "Address multisets over private/public IPv4/IPv6, localhost and other DNS names, relay, QUIC/TCP/WebTransport/WebRTC-direct and ports; oracle on the virtual times at which each transport dial is first polled: complete permutation with finite delays, last group never strictly before an earlier group, QUIC no later than TCP within a group",
+  E2_NOTE + "; observed through the public Swarm path and timers (no hook, rank_dials itself is not called by the harness)", "5/C09")
+BUILT["C10"] = ("E2", "exploration", "deterministic simulation with virtual clock: keep-alive flips, held / ignored / dropped streams and clock advances placed around the idle timeout; busy timeline reconstructed from the handlers' own logs",
+  "At every KeepAliveTimeout close: side not busy at the close decision, decision no earlier than last-busy instant + idle_timeout (timeouts 0, 50 ms, 5 s, 60 s); liveness: once idle and past the timeout the connection is closed with KeepAliveTimeout",
+  E2_NOTE, "5/C10")
+BUILT["C11"] = ("E2", "exploration", "deterministic simulation: advertised-protocol list histories (duplicates across composite fields, invalid names) and overlapping remote add/remove reports; fold of notifications compared at quiescence points",
+  "fold(LocalProtocolsChange) per field handler == valid names of the union of current lists; fold(RemoteProtocolsChange) == reports folded in the order the handlers handed them over; several changes may land in one connection poll pass",
+  E2_NOTE, "5/C11")
+BUILT["C12"] = ("E2", "exploration", "deterministic simulation: scripted transport listener events + application/behaviour external and peer address operations + real failing dials; reference fold after every step",
+  "Swarm::listeners(), ListenerClosed.addresses, external_addresses() and the three helper structs (contents and 'changed' answers) equal the reference fold after every step",
+  E2_NOTE, "5/C12")
 NOT_YET = {}
 
 def main():
